@@ -124,6 +124,13 @@ def write_records(m, rid, cls):
     out.append(rec)
     if rec["exc"]:
         return out
+    # history: the same object written a second time must give a text denoting the same chart
+    rec2 = {"id": rid + "/write2", "op": "write", "cls": cls + ".again", "exc": "", "file": {}, "chart": rec["chart"]}
+    try:
+        rec2["file"] = lex(m.write())
+    except Exception as e:
+        rec2["exc"] = exc_name(e)
+    out.append(rec2)
     gens = []
     cur_text = text
     try:
